@@ -49,6 +49,9 @@ func c01Reference(f *c07Fake, n uint64) [][]byte {
 		}
 		// m1 runs on every block (its input is the block itself); a module that ran and emitted
 		// nothing is an empty input, not a skipped one: out runs on every block too
+		if f.graph == 7 && b < 1 {
+			continue // out starts at block 1
+		}
 		if f.graph == 5 {
 			// out reads the store and m2 only: without m2 it has no input and does not run
 			if m2 == nil {
@@ -160,6 +163,9 @@ func VerifC01Segments() {
 	check("served-from-cache")
 }
 
+// c01OutStartsLate: GRAPH=7, the output module starts at block 1.
+var c01OutStartsLate bool
+
 func c01Pad(n uint64) string {
 	s := []byte("0000000000")
 	for i := len(s) - 1; n > 0; i-- {
@@ -246,6 +252,7 @@ func VerifC01Staged() {
 		policy = pbsubstreams.Module_KindStore_UPDATE_POLICY_APPEND
 	}
 	want := c01Reference(fake, total)
+	c01OutStartsLate = fake.graph == 7
 
 	// the client's request starts at any block of the range (DELIVER=1)
 	// and stops at any later block (the files are written for whole segments; the range read
@@ -329,7 +336,11 @@ func c01CheckSegment(files *sym.MemStore, seg, segSize uint64, want [][]byte) bo
 	var content []byte
 	found := false
 	for _, n := range files.Names() {
-		if strings.HasPrefix(n, "tag/"+c07OutHash+"/outputs/") && strings.Contains(n, c01RangeName(seg*segSize, (seg+1)*segSize)) {
+		from := seg * segSize
+		if want[from] == nil && from+1 < (seg+1)*segSize && c01OutStartsLate {
+			from++ // the output module's first block is inside the segment: its file starts there
+		}
+		if strings.HasPrefix(n, "tag/"+c07OutHash+"/outputs/") && strings.Contains(n, c01RangeName(from, (seg+1)*segSize)) {
 			content, found = files.Get(n)
 		}
 	}
